@@ -33,6 +33,7 @@ import (
 
 	"github.com/lianxiangcloud/linkchain/config"
 	"github.com/lianxiangcloud/linkchain/libs/common"
+	"github.com/lianxiangcloud/linkchain/libs/crypto"
 	"github.com/lianxiangcloud/linkchain/libs/log"
 	"github.com/lianxiangcloud/linkchain/state"
 	"github.com/lianxiangcloud/linkchain/types"
@@ -233,7 +234,7 @@ func panicKey(stack string) string {
 			continue
 		}
 		if m := reRepoFunc.FindStringSubmatch(line); m != nil {
-			return "panic:" + m[1] + "." + strings.Trim(m[2], "()*")
+			return "panic:" + m[1] + "." + strings.NewReplacer("(", "", ")", "", "*", "").Replace(m[2])
 		}
 	}
 	return "panic:unknown-site"
@@ -409,14 +410,27 @@ func checkCase(t vstat.TB, cd *caseData) {
 		runReuse(t, cd, w, &oA, stA, u)
 	}
 
-	// roots last: IntermediateRoot finalises the state
-	if rA, rB := stA.IntermediateRoot(false), stB.IntermediateRoot(false); rA != rB {
+	// roots last: IntermediateRoot finalises the state (app.go calls IntermediateRoot(false) on the
+	// state the transactions ran on; a state it cannot encode takes the node down just as a panic
+	// inside the VM does)
+	rA, panA := rootOf(stA)
+	rB, _ := rootOf(stB)
+	if panA != nil {
+		report(t, cd, "panic:post-state-cannot-be-committed", "the execution finished (%q) but IntermediateRoot panics on the state it left: %v", oA.errString(), panA)
+		return
+	}
+	if rA != rB {
 		if !report(t, cd, "determinism:state-root", "two identical executions give state roots %x and %x", rA, rB) {
 			return
 		}
 	}
 
 	classify(cd, &oA, trA, rec)
+}
+
+func rootOf(st *state.StateDB) (root common.Hash, pan interface{}) {
+	defer func() { pan = recover() }()
+	return st.IntermediateRoot(false), nil
 }
 
 func trimStack(s string) string {
@@ -757,6 +771,8 @@ type seed struct {
 	value uint64
 }
 
+var purchaseContract = common.Hex2Bytes("6060604052361561006c5760e060020a600035046308551a53811461007457806335a063b4146100865780633fa4f245146100a6578063590e1ae3146100af5780637150d8ae146100cf57806373fac6f0146100e1578063c19d93fb146100fe578063d696069714610112575b610131610002565b610133600154600160a060020a031681565b610131600154600160a060020a0390811633919091161461015057610002565b61014660005481565b610131600154600160a060020a039081163391909116146102d557610002565b610133600254600160a060020a031681565b610131600254600160a060020a0333811691161461023757610002565b61014660025460ff60a060020a9091041681565b61013160025460009060ff60a060020a9091041681146101cc57610002565b005b600160a060020a03166060908152602090f35b6060908152602090f35b60025460009060a060020a900460ff16811461016b57610002565b600154600160a060020a03908116908290301631606082818181858883f150506002805460a060020a60ff02191660a160020a179055506040517f72c874aeff0b183a56e2b79c71b46e1aed4dee5e09862134b8821ba2fddbf8bf9250a150565b80546002023414806101dd57610002565b6002805460a060020a60ff021973ffffffffffffffffffffffffffffffffffffffff1990911633171660a060020a1790557fd5d55c8a68912e9a110618df8d5e2e83b8d83211c57a8ddd1203df92885dc881826060a15050565b60025460019060a060020a900460ff16811461025257610002565b60025460008054600160a060020a0390921691606082818181858883f150508354604051600160a060020a0391821694503090911631915082818181858883f150506002805460a060020a60ff02191660a160020a179055506040517fe89152acd703c9d8c7d28829d443260b411454d45394e7995815140c8cbcbcf79250a150565b60025460019060a060020a900460ff1681146102f057610002565b6002805460008054600160a060020a0390921692909102606082818181858883f150508354604051600160a060020a0391821694503090911631915082818181858883f150506002805460a060020a60ff02191660a160020a179055506040517f8616bbbbad963e4e65b1366f1d75dfb63f9e9704bbbf91fb01bec70849906cf79250a15056")
+
 func seedPrograms() []seed {
 	g := func(gas uint64, entry uint64) uint64 { return gas<<3 | entry }
 	ret42 := prog(func(a *asm) { a.pushU(42).pushU(0).op(evm.MSTORE).pushU(32).pushU(0).op(evm.RETURN) })
@@ -832,6 +848,10 @@ func seedPrograms() []seed {
 			a.pushU(64).pushU(0).pushU(0).op(evm.ADDRESS, evm.EXTCODECOPY).pushU(64).pushU(0).op(evm.RETURN)
 		}), nil, g(100000, 0), 0},
 		{"init-code-deploying", deployer(ret42), nil, g(1000000, 3), 0},
+		// the Solidity contract of vm/runtime/runtime_test.go (BenchmarkCall) with its three calls
+		{"solidity-purchase-confirmPurchase", purchaseContract, crypto.Keccak256([]byte("confirmPurchase()"))[:4], g(3000000, 0), 2},
+		{"solidity-purchase-confirmReceived", purchaseContract, crypto.Keccak256([]byte("confirmReceived()"))[:4], g(3000000, 1), 0},
+		{"solidity-purchase-refund", purchaseContract, crypto.Keccak256([]byte("refund()"))[:4], g(3000000, 0), 0},
 		{"two-creates-jumping-init-codes", jumpdestCrashCode(), nil, g(1000000, 0), 0},
 		{"issue-then-loop-on-decimals-query", issueLoopCode(), nil, g(100000, 0), 0},
 		{"blockhash-env", prog(func(a *asm) {
